@@ -100,7 +100,7 @@ def gen(rng, tier, index):
                 elif r < 0.5:
                     op = {"op": "deref"}
                 elif r < 0.8:
-                    op = {"op": "tderef", "ms": rng.choice([0, 10, 10, 20, 50])}
+                    op = {"op": "tderef", "ms": rng.choice([0, 10, 10, 20, 50, -5, 0.5, 10.5])}
                 else:
                     op = {"op": "realized?"}
                 if faults and rng.random() < 0.3:
@@ -117,7 +117,7 @@ def gen(rng, tier, index):
             if r < 0.4:
                 op = {"op": "deref"}
             elif r < 0.75:
-                op = {"op": "tderef", "ms": rng.choice([0, 10, 10, 20, 50])}
+                op = {"op": "tderef", "ms": rng.choice([0, 10, 10, 20, 50, -5, 0.5, 10.5])}
             else:
                 op = {"op": rng.choice(["realized?", "future-done?"])}
             if cancels and rng.random() < 0.3:
@@ -430,12 +430,12 @@ def _timed_rule(rec, completes, what):
     if not k.jumps:
         for o, (t0, t1) in rec.ops:
             if o.kind == "tderef":
-                dl = t0 + o.args["ms"] / 1000.0
+                dl = t0 + max(o.args["ms"], 0) / 1000.0        # a negative timeout is "do not wait"
                 if t1 > dl + 1e-9:
                     return f"{ID}/{what}-timed-deref-overslept", o
     for o, (t0, t1) in rec.ops:
         if o.kind == "tderef" and o.result == ("ok", "TIMEOUT"):
-            dl = t0 + o.args["ms"] / 1000.0
+            dl = t0 + max(o.args["ms"], 0) / 1000.0
             if t1 < dl - 1e-12:
                 return f"{ID}/{what}-timed-deref-early-timeout", o
             for tc in completes:
